@@ -413,6 +413,20 @@ func c20ParamsMuts() []c20Mut {
 			r.ConsensusParams.Validator.PubKeyTypes = []string{types.ABCIPubKeyTypeSecp256k1}
 		}),
 		mk("ConsensusParams.Version.AppVersion", c20Unverifiable, func(r *ctypes.ResultConsensusParams) { r.ConsensusParams.Version.AppVersion++ }),
+		// the genuine (BlockHeight, params) pair of another height, chosen across the params change when there is one
+		{Name: ":=genuine-params-of-another-height", Class: c20Other, F: func(res interface{}, ch *c20Chain) bool {
+			r := res.(*ctypes.ResultConsensusParams)
+			h := ch.tip
+			if r.BlockHeight >= ch.tip {
+				h = 1
+			}
+			o, err := newC20Node(ch, nil).ConsensusParams(nil, &h)
+			if err != nil {
+				return false
+			}
+			*r = *o
+			return true
+		}},
 	}
 }
 
